@@ -1,11 +1,17 @@
 """./check --setup : build everything from files on disk, offline."""
-import sys, time
+import sys, time, os
 from common import *
 import engine
 
 
 def main():
     t0 = time.time()
+    # Unicode tables of this toolchain's std -> coq/Unicode/UnicodeData.v (proofs re-run on them)
+    p = run([sys.executable, os.path.join(VERIF, "harness", "gen_unicode.py")])
+    if p.returncode != 0:
+        print(p.stdout[-2000:], p.stderr[-2000:])
+        print("setup: unicode table generation failed")
+        return 1
     ok, log_ = engine.build_coq()
     if not ok:
         print(log_[-4000:])
